@@ -69,6 +69,15 @@ func (f *Dox) Call(s *slip.Scope, args slip.List, depth int) (result slip.Object
 		if ns.Eval(test, d2) != nil {
 			for _, rf := range rforms {
 				result = ns.Eval(rf, d2)
+				switch tr := result.(type) {
+				case *slip.ReturnResult:
+					if tr.Tag == nil {
+						return tr.Result
+					}
+					return
+				case *GoTo:
+					return
+				}
 			}
 			break
 		}
